@@ -3,6 +3,7 @@ package rules
 import (
 	"fmt"
 	"go/token"
+	"go/types"
 	"strings"
 
 	"golang.org/x/tools/go/ssa"
@@ -585,6 +586,11 @@ func stageLifecycleRules(c *core.Ctx, s *Stage, o lifecycleOpts) {
 			if p.Exit == ir.ExitPanic {
 				ok = false
 				c.Fail("no-panic-source", pr.name, lastPos(p), "explicit panic reachable in a library goroutine")
+				break
+			}
+			if st := constIndexWithoutBound(p); st != nil {
+				ok = false
+				c.Fail("no-panic-source", pr.name, st.Pos(), "an element of a slice argument is read at a constant index although the path has not established that the slice is that long (an empty argument list panics with index out of range)")
 				break
 			}
 			closed := map[string]bool{}
@@ -1230,4 +1236,59 @@ func precededOnPaths(an *ir.Analysis, target ssa.Instruction, pred func(*ir.Step
 		}
 	}
 	return found
+}
+
+// constIndexWithoutBound: the path reads xs[k] (k a constant, xs a slice parameter - e.g. a variadic argument list)
+// without a preceding branch that excludes len(xs) <= k. Returns the first offending step.
+func constIndexWithoutBound(p *ir.Path) *ir.Step {
+	type need struct {
+		base *ir.Term
+		k    int64
+	}
+	bounded := func(n need, upto int) bool {
+		l := &ir.Term{Op: "len", Args: []*ir.Term{n.base}}
+		for i := 0; i < upto && i < len(p.Steps); i++ {
+			st := &p.Steps[i]
+			if st.Kind != ir.KBranch || !mentions(st.Atom, l) {
+				continue
+			}
+			// the branch taken must be impossible for len == k (and so for every shorter slice of the usual guards)
+			at := ir.Rebuild(substTerm(st.Atom, l, ir.Const(fmt.Sprint(n.k))))
+			if at.IsConst() && (at.Aux == "true" || at.Aux == "false") && (at.Aux == "true") != st.Pol {
+				return true
+			}
+		}
+		return false
+	}
+	for i := range p.Steps {
+		st := &p.Steps[i]
+		var found *need
+		visit := func(t *ir.Term) {
+			if t == nil || found != nil {
+				return
+			}
+			t.Walk(func(x *ir.Term) {
+				if found != nil || x.Op != "iaddr" || len(x.Args) != 2 {
+					return
+				}
+				k, isK := x.Args[1].IntConst()
+				if !isK || x.Args[0].Op != "param" || x.Args[0].Typ == nil {
+					return
+				}
+				if _, isSlice := x.Args[0].Typ.Underlying().(*types.Slice); !isSlice {
+					return
+				}
+				found = &need{x.Args[0], k}
+			})
+		}
+		for _, a := range st.A {
+			visit(a)
+		}
+		visit(st.R)
+		visit(st.Atom)
+		if found != nil && !bounded(*found, i) {
+			return st
+		}
+	}
+	return nil
 }
